@@ -127,6 +127,9 @@ class RegulariserNullSpaces:
                         if field == "translation" and loss in ("bending_loss", "curvature_loss"):
                             continue
                         yield {"D": D, "loss": loss, "mode": mode, "field": field}
+        # with Gaussian pre-smoothing of the field (sigma > 0): a translation stays a translation (replicate padding)
+        for loss in ("diffusion_loss", "bending_loss", "divergence_loss"):
+            yield {"D": 2, "loss": loss, "mode": None, "field": "translation", "sigma": 1.0}
 
     def run(self, case, K):
         import deepali.losses.functional as L
@@ -141,6 +144,8 @@ class RegulariserNullSpaces:
                 vals[idx] = bs[0][idx[1]]
         u = K.tensor(vals)
         kw = dict(mode=mode, spacing=arg, reduction="none")
+        if "sigma" in case:
+            kw["sigma"] = case["sigma"]
         if loss == "elasticity_loss":
             kw.update(first_parameter=2.0, second_parameter=3.0)
         if loss == "grad_loss":
@@ -266,6 +271,10 @@ class InverseConsistency:
                 if tier == "quick" and D == 3 and ac:
                     continue
                 yield {"D": D, "units": "cube", "align_corners": ac, "form": "scaling-flows"}
+        # foreground masks in the encodings the docstring allows ("errors at points with a zero mask value are ignored")
+        for enc in ("uint8-255", "labels", "soft"):
+            for units in ("cube", "world"):
+                yield {"D": 2, "units": units, "align_corners": True, "form": "matrix", "mask": enc}
 
     def run(self, case, K):
         import deepali.losses.functional as L
@@ -311,6 +320,16 @@ class InverseConsistency:
         if case["form"] == "flow":
             # a constant displacement leaves the sample hull: use border-free exact pair only (e = error)
             pass
+        if "mask" in case:
+            fg = torch.zeros((1, 1) + shape)
+            fg[..., : shape[-1] // 2] = 1
+            enc = {"uint8-255": (fg * 255).to(torch.uint8), "labels": (fg * 3).to(torch.int64), "soft": fg * 0.3}[case["mask"]]
+            for red in ("none", "mean"):
+                base = K.call(L.inverse_consistency_loss, K.tensor(fwd), K.tensor(inv), grid=g, units=units, reduction=red, mask=fg)
+                other = K.call(L.inverse_consistency_loss, K.tensor(fwd), K.tensor(inv), grid=g, units=units, reduction=red, mask=enc)
+                if K.ensure_returns(base) and K.ensure_returns(other, text=Q17I + f" [mask given as {case['mask']}]"):
+                    K.ensure_eq(f"mask-encoding[{red}]", other, K.val(base), text=Q17I + f" [errors at points with a zero mask value are ignored, the others count fully: mask encoded as {case['mask']}]")
+            return
         res = K.call(L.inverse_consistency_loss, K.tensor(fwd), K.tensor(inv), grid=g, units=units, reduction="none")
         if not K.ensure_returns(res):
             return
